@@ -12,7 +12,8 @@ func getDialAddr(urlAddr, dialAddr string, defaultPort string) string {
 		}
 		host, port := trySplitHostPort(dialAddr)
 		if len(port) == 0 { // add default port
-			return net.JoinHostPort(host, defaultPort)
+			// "[::1]" -> "::1", JoinHostPort adds the brackets back.
+			return net.JoinHostPort(tryTrimIpv6Brackets(host), defaultPort)
 		}
 		return dialAddr
 	}
